@@ -639,7 +639,7 @@ theorem heaviside_counterexample :
 
 /-! ### in-place / `out=` results with a coefficient -/
 
-/-- **out= fix-up.**  (Full statement; it failed before fix db741b8, when the fix-up re-entered
+/-- **out= fix-up.**  (Full statement; it failed before fix 8405e15, when the fix-up re-entered
     the dispatcher with the out array's stale unit: `x = unyt_array([1, 2], 'km/m'); x *= 2`
     recursed without end.)  The fix-up always terminates and multiplies the buffer by exactly the
     coefficient. -/
